@@ -1569,6 +1569,38 @@ func psInputs(r *rand.Rand, n int, thorough bool) []psInput {
 	for _, t := range tabs {
 		ins = append(ins, psPairs(t, thorough)...)
 	}
+	// every infix / postfix operator of every table inside the branches of ?: (the middle
+	// operand is delimited by ? and :, so no operator there needs parentheses, however weak)
+	for _, t := range tabs {
+		for _, o := range t.ops {
+			k := string(o.Kind)
+			switch o.Fixity {
+			case oper.INFIX_L, oper.INFIX_R, oper.INFIX_N:
+				for _, s := range []string{
+					"a ? b " + k + " c : d", "a ? ( b " + k + " c ) : d", "a ? b : c " + k + " d", "a " + k + " b ? c : d",
+					"a ? b ? c " + k + " d : e : f", "a ? b " + k + " c " + k + " d : e", "f ( a " + k + " b , c ) [ d " + k + " e ]",
+				} {
+					ins = append(ins, psInput{tab: t, src: s, gen: "ternary-branches"})
+				}
+			case oper.POSTFIX:
+				ins = append(ins, psInput{tab: t, src: "a ? b " + k + " : c " + k, gen: "ternary-branches"})
+			case oper.PREFIX:
+				ins = append(ins, psInput{tab: t, src: "a ? " + k + " b : " + k + " c", gen: "ternary-branches"})
+			}
+		}
+	}
+	// twin tables: the same symbols, fixities and order with fractional powers that differ only
+	// after the decimal point (and flip the relative precedence), used one after the other in
+	// one process: a parser must depend on its own table only
+	twinA := (&psTable{name: "twin-a", ops: []oper.Operator{op("@", 8.25, oper.INFIX_L), op("#", 8.75, oper.INFIX_L), op("+", 7, oper.INFIX_L), op("~", 7.5, oper.INFIX_R)}}).init()
+	twinB := (&psTable{name: "twin-b", ops: []oper.Operator{op("@", 8.75, oper.INFIX_L), op("#", 8.25, oper.INFIX_L), op("+", 7.9, oper.INFIX_L), op("~", 7.25, oper.INFIX_R)}}).init()
+	for round := 0; round < 2; round++ {
+		for _, t := range []*psTable{twinA, twinB} {
+			for _, s := range []string{"a @ b # c", "a # b @ c", "( a @ b ) # c", "a @ ( b # c )", "a + b ~ c", "a ~ b + c", "a ~ b ~ c @ d"} {
+				ins = append(ins, psInput{tab: t, src: s, gen: "twin-tables"})
+			}
+		}
+	}
 	// (b) token sequences
 	lit := "true"
 	if psLiterals {
